@@ -34,21 +34,23 @@ func IntelName(cn string) pkix.Name {
 
 // CertSpec describes one certificate; zero values mean "as Intel issues it".
 type CertSpec struct {
-	CN          string
-	Name        *pkix.Name // overrides CN when set
-	Serial      *big.Int
-	NotBefore   time.Time
-	NotAfter    time.Time
-	IsCA        bool
-	Key         *Key
-	CRLDP       []string
-	SGXExt      []byte // raw value of the SGX extension (leaf only)
-	NoSGXExt    bool
-	ExtraExts   []pkix.Extension
-	IssuerName  *pkix.Name // claims another issuer than the parent's subject
-	SigAlg      x509.SignatureAlgorithm
-	MaxPathLen  int
-	NoCRLDP     bool
+	CN         string
+	Name       *pkix.Name // overrides CN when set
+	Serial     *big.Int
+	NotBefore  time.Time
+	NotAfter   time.Time
+	IsCA       bool
+	Key        *Key
+	CRLDP      []string
+	SGXExt     []byte // raw value of the SGX extension (leaf only)
+	NoSGXExt   bool
+	ExtraExts  []pkix.Extension
+	IssuerName *pkix.Name // claims another issuer than the parent's subject
+	SigAlg     x509.SignatureAlgorithm
+	MaxPathLen int
+	NoCRLDP    bool
+	// PubKey, when set, is the subject public key (any type x509 can encode); Key still names the certificate.
+	PubKey      any
 	ExtKeyUsage []x509.ExtKeyUsage // extended key usage extension (none by default, as in Intel's certificates)
 }
 
@@ -127,7 +129,11 @@ func MakeCert(spec CertSpec, parent *x509.Certificate, signer *Key) *x509.Certif
 		cp.PublicKey = &signer.Pub
 		par = &cp
 	}
-	der, err := x509.CreateCertificate(rand.Reader, tmpl, par, &spec.Key.Pub, signer)
+	var subjectPub any = &spec.Key.Pub
+	if spec.PubKey != nil {
+		subjectPub = spec.PubKey
+	}
+	der, err := x509.CreateCertificate(rand.Reader, tmpl, par, subjectPub, signer)
 	if err != nil {
 		panic(fmt.Sprintf("harness: CreateCertificate(%s): %v", spec.CN, err))
 	}
